@@ -31,7 +31,21 @@ type (
 		c *pCell
 		i int
 	}
-	pCmp struct { // sym op k (a boolean that is not decided)
+	pTerm struct { // an OR of bytes of one slice, each shifted: index -> shift
+		data ssa.Value
+		m    map[int64]int64
+	}
+	pArray struct{ e []interface{} } // a small local array
+	pEAddr struct {                  // address of an element of a local array
+		c *pCell
+		i int
+	}
+	pShift struct { // sym >> k, truncated to a byte by the conversion that follows
+		sym string
+		k   int64
+	}
+	pSlice struct{ v ssa.Value } // a slice whose content is not known (the result of a call): its bytes are terms
+	pCmp   struct { // sym op k (a boolean that is not decided)
 		sym string
 		op  token.Token
 		k   int64
@@ -62,6 +76,8 @@ type (
 		syms    map[*ssa.Parameter]string
 		aborted bool
 		concrete bool // folding a pure helper: every branch must be decided
+		loops    bool // follow loop back-edges (the counters are concrete): used to read byte compositions written as loops
+		bytes    bool // slices returned by calls are kept as symbolic byte sources
 	}
 	peState struct {
 		env     map[ssa.Value]interface{}
@@ -89,6 +105,8 @@ func (s *peState) fork() *peState {
 			c.env[k] = cp(x)
 		case pFAddr:
 			c.env[k] = pFAddr{cp(x.c), x.i}
+		case pEAddr:
+			c.env[k] = pEAddr{cp(x.c), x.i}
 		default:
 			c.env[k] = v
 		}
@@ -115,6 +133,14 @@ func peZero(t types.Type) interface{} {
 			s.f[i] = peZero(u.Field(i).Type())
 		}
 		return s
+	case *types.Array:
+		if u.Len() <= 16 {
+			a := &pArray{e: make([]interface{}, u.Len())}
+			for i := range a.e {
+				a.e[i] = peZero(u.Elem())
+			}
+			return a
+		}
 	}
 	return pUnk{}
 }
@@ -306,6 +332,10 @@ func (p *peval) run(st *peState, b, prev *ssa.BasicBlock, depth int) {
 					if s, ok := a.c.v.(*pStruct); ok && a.i < len(s.f) {
 						s.f[a.i] = peCopy(p.get(st, x.Val))
 					}
+				case pEAddr:
+					if arr, ok := a.c.v.(*pArray); ok && a.i < len(arr.e) {
+						arr.e[a.i] = peCopy(p.get(st, x.Val))
+					}
 				}
 			case ssa.Value:
 				st.env[x] = p.eval(st, x)
@@ -317,7 +347,7 @@ func (p *peval) run(st *peState, b, prev *ssa.BasicBlock, depth int) {
 			p.paths = append(p.paths, pePath{conds: st.conds, events: st.events, outcome: "end"})
 			return
 		}
-		if next.Dominates(b) {
+		if next.Dominates(b) && !p.loops {
 			// a loop back-edge: the path ends with the values carried into the next iteration
 			carried := map[*ssa.Phi]interface{}{}
 			for _, in := range next.Instrs {
@@ -339,7 +369,7 @@ func (p *peval) run(st *peState, b, prev *ssa.BasicBlock, depth int) {
 }
 
 func (p *peval) edge(st *peState, from, to *ssa.BasicBlock, depth int) {
-	if to.Dominates(from) {
+	if to.Dominates(from) && !p.loops {
 		carried := map[*ssa.Phi]interface{}{}
 		for _, in := range to.Instrs {
 			ph, ok := in.(*ssa.Phi)
@@ -360,6 +390,13 @@ func (p *peval) edge(st *peState, from, to *ssa.BasicBlock, depth int) {
 }
 
 func peCopy(v interface{}) interface{} {
+	if a, ok := v.(*pArray); ok {
+		c := &pArray{e: make([]interface{}, len(a.e))}
+		for i, e := range a.e {
+			c.e[i] = peCopy(e)
+		}
+		return c
+	}
 	if s, ok := v.(*pStruct); ok {
 		c := &pStruct{f: make([]interface{}, len(s.f))}
 		for i, e := range s.f {
@@ -379,6 +416,13 @@ func (p *peval) eval(st *peState, v ssa.Value) interface{} {
 			return pFAddr{c, x.Field}
 		}
 		return pUnk{}
+	case *ssa.Slice:
+		if c, ok := p.get(st, x.X).(*pCell); ok && x.Low == nil && x.High == nil {
+			if arr, isArr := c.v.(*pArray); isArr {
+				return peCopy(arr)
+			}
+		}
+		return pUnk{}
 	case *ssa.Field:
 		if s, ok := p.get(st, x.X).(*pStruct); ok && x.Field < len(s.f) {
 			return s.f[x.Field]
@@ -392,11 +436,50 @@ func (p *peval) eval(st *peState, v ssa.Value) interface{} {
 	case *ssa.ChangeType:
 		return p.get(st, x.X)
 	case *ssa.MakeInterface:
+		if u, ok := x.X.(*ssa.UnOp); ok && u.Op == token.MUL {
+			if g, isG := u.X.(*ssa.Global); isG && g.Pkg != nil && g.Pkg.Pkg.Path() == "encoding/binary" {
+				return pSym("binary." + g.Name())
+			}
+		}
 		return p.get(st, x.X)
+	case *ssa.IndexAddr:
+		if c, ok := p.get(st, x.X).(*pCell); ok {
+			if _, isArr := c.v.(*pArray); isArr {
+				if i, okI := peInt(p.get(st, x.Index)); okI && i >= 0 {
+					return pEAddr{c, int(i)}
+				}
+			}
+			return pUnk{}
+		}
+		if sl, ok := p.get(st, x.X).(pSlice); ok {
+			if i, okI := peInt(p.get(st, x.Index)); okI && i >= 0 {
+				return pTerm{data: sl.v, m: map[int64]int64{i: -1}} // shift -1: the address of the byte
+			}
+		}
+		return pUnk{}
 	case *ssa.Convert:
 		a := p.get(st, x.X)
+		if isByteType(x.Type()) {
+			switch y := a.(type) {
+			case pSym:
+				return pShift{string(y), 0}
+			case pShift:
+				return y
+			}
+		}
 		if _, ok := a.(pSym); ok && isAnyInt(x.Type()) {
 			return a
+		}
+		if t, ok := a.(pTerm); ok && isAnyInt(x.Type()) {
+			return t // widening keeps the bytes; a narrowing one is judged by the caller against the width
+		}
+		if isByteType(x.Type()) {
+			switch y := a.(type) {
+			case pSym:
+				return pShift{string(y), 0}
+			case pShift:
+				return y
+			}
 		}
 		if c, ok := a.(constant.Value); ok && c.Kind() == constant.Int && isAnyInt(x.Type()) {
 			return wrapInt(c, x.Type())
@@ -412,11 +495,24 @@ func (p *peval) eval(st *peState, v ssa.Value) interface{} {
 				return pUnk{}
 			}
 			switch a := p.get(st, x.X).(type) {
+			case pTerm:
+				if len(a.m) == 1 {
+					for i, sh := range a.m {
+						if sh == -1 {
+							return pTerm{data: a.data, m: map[int64]int64{i: 0}}
+						}
+					}
+				}
+				return pUnk{}
 			case *pCell:
 				return peCopy(a.v)
 			case pFAddr:
 				if s, ok := a.c.v.(*pStruct); ok && a.i < len(s.f) {
 					return peCopy(s.f[a.i])
+				}
+			case pEAddr:
+				if arr, ok := a.c.v.(*pArray); ok && a.i < len(arr.e) {
+					return peCopy(arr.e[a.i])
 				}
 			}
 			// a row of a package-level table
@@ -497,7 +593,62 @@ func (p *peval) eval(st *peState, v ssa.Value) interface{} {
 			}
 			return pUnk{}
 		}
+		if sa, isS := a.(pSym); isS && okb && x.Op == token.SHR {
+			if k, okK := peInt(cb); okK && k >= 0 && k < 64 {
+				return pShift{string(sa), k}
+			}
+		}
+		// byte compositions: term << k, term | term, 0 | term
+		if ta, isT := a.(pTerm); isT && okb && (x.Op == token.SHL) {
+			if k, okK := peInt(cb); okK && k >= 0 && k < 64 {
+				out := pTerm{data: ta.data, m: map[int64]int64{}}
+				for i, sh := range ta.m {
+					if sh < 0 {
+						return pUnk{}
+					}
+					out.m[i] = sh + k
+				}
+				return out
+			}
+		}
+		if x.Op == token.OR || x.Op == token.ADD {
+			ta, isTa := a.(pTerm)
+			tb, isTb := b.(pTerm)
+			switch {
+			case isTa && isTb && ta.data == tb.data:
+				out := pTerm{data: ta.data, m: map[int64]int64{}}
+				for i, sh := range ta.m {
+					out.m[i] = sh
+				}
+				for i, sh := range tb.m {
+					if _, dup := out.m[i]; dup || sh < 0 {
+						return pUnk{}
+					}
+					out.m[i] = sh
+				}
+				return out
+			case isTa && okb:
+				if k, okK := peInt(cb); okK && k == 0 {
+					return ta
+				}
+			case isTb && oka:
+				if k, okK := peInt(ca); okK && k == 0 {
+					return tb
+				}
+			}
+		}
 		if isCmp(x.Op) {
+			// the reader's byte order against encoding/binary's
+			if sa, isS := a.(pSym); isS {
+				if _, isS2 := b.(pSym); !isS2 && len(sa) > 7 && sa[:7] == "binary." && (x.Op == token.EQL || x.Op == token.NEQ) {
+					return pCmp{"order=" + string(sa[7:]), x.Op, 1}
+				}
+			}
+			if sb, isS := b.(pSym); isS {
+				if _, isS2 := a.(pSym); !isS2 && len(sb) > 7 && sb[:7] == "binary." && (x.Op == token.EQL || x.Op == token.NEQ) {
+					return pCmp{"order=" + string(sb[7:]), x.Op, 1}
+				}
+			}
 			// symbolic parameter against a constant
 			if s, isS := a.(pSym); isS && okb {
 				if k, okK := peInt(cb); okK {
@@ -539,7 +690,16 @@ func (p *peval) eval(st *peState, v ssa.Value) interface{} {
 		}
 		return pUnk{}
 	case *ssa.Call:
-		if _, isB := x.Call.Value.(*ssa.Builtin); isB {
+		if bi, isB := x.Call.Value.(*ssa.Builtin); isB {
+			if bi.Name() == "append" && len(x.Call.Args) == 2 {
+				st.events = append(st.events, peEvent{name: "append", args: []interface{}{p.get(st, x.Call.Args[0]), p.get(st, x.Call.Args[1])}, pos: x.Pos()})
+				return pUnk{}
+			}
+			if bi.Name() == "len" && len(x.Call.Args) == 1 {
+				if sl, ok := p.get(st, x.Call.Args[0]).(pSlice); ok {
+					return pSym("len:" + sl.v.Name())
+				}
+			}
 			return pUnk{}
 		}
 		f := x.Call.StaticCallee()
@@ -573,6 +733,11 @@ func (p *peval) eval(st *peState, v ssa.Value) interface{} {
 			}
 			return t
 		}
+		if p.bytes {
+			if sl, isSl := x.Type().Underlying().(*types.Slice); isSl && isByteType(sl.Elem()) {
+				return pSlice{v: x}
+			}
+		}
 		return pUnk{}
 	}
 	return pUnk{}
@@ -597,4 +762,23 @@ func peArm(r *core.Run, method string, tok int64, syms map[int]string) ([]pePath
 		return nil, p
 	}
 	return p.paths, p
+}
+
+// peFunc: the paths of fn with some parameters bound to constants, loops followed, byte slices symbolic.
+func peFunc(r *core.Run, fn *ssa.Function, bind map[int]interface{}) ([]pePath, bool) {
+	if fn == nil || len(fn.Blocks) == 0 {
+		return nil, false
+	}
+	p := &peval{r: r, fn: fn, syms: map[*ssa.Parameter]string{}, loops: true, bytes: true}
+	st := &peState{env: map[ssa.Value]interface{}{}, ttValid: false}
+	for i, v := range bind {
+		if i < len(fn.Params) {
+			st.env[fn.Params[i]] = v
+		}
+	}
+	p.run(st, fn.Blocks[0], nil, 0)
+	if p.aborted {
+		return nil, false
+	}
+	return p.paths, true
 }
